@@ -254,6 +254,34 @@ test-group = 'g1'
         sc.timeout_s = 60
         sc.meta = {"tests": tests, "retries": 0, "threads": 2, "heavy": False, "group_m": 4, "group_r": None, "grace": GRACE, "delay_ms": 0, "backoff": "fixed", "run_ignored": "default", "extra": False, "store_s": False, "store_f": True}
         return sc
+    if k == 12:
+        # fixed scenario (corpus): `--retries 0` on the command line against `retries = 2` in the profile and 3 in an override: the
+        # command line wins, a failing test is run exactly once
+        tests = [{"bin": "t_one", "pkg": "alpha", "name": "fails_once_only", "ignored": False, "attempts": [fixed_attempt("fail", 10, "F")] * 4},
+                 {"bin": "t_two", "pkg": "alpha", "name": "override_fails", "ignored": False, "attempts": [fixed_attempt("fail", 20, "F")] * 4},
+                 {"bin": "t_three", "pkg": "beta", "name": "passes", "ignored": False, "attempts": [fixed_attempt("pass", 30, "P")] * 4}]
+        for t in tests: sc.test(t["bin"], t["name"], {str(i + 1): a["acts"] for i, a in enumerate(t["attempts"])})
+        sc.config = '''[profile.default]
+retries = 2
+test-threads = 2
+fail-fast = false
+status-level = "all"
+final-status-level = "all"
+failure-output = "never"
+success-output = "never"
+[profile.default.junit]
+path = "@JUNIT@"
+store-success-output = false
+store-failure-output = true
+[[profile.default.overrides]]
+filter = 'binary(t_two)'
+retries = 3
+'''
+        sc.cli = ["--retries", "0"]
+        sc.env = {}
+        sc.timeout_s = 60
+        sc.meta = {"tests": tests, "retries": 0, "threads": 2, "heavy": False, "group_m": None, "group_r": None, "grace": GRACE, "delay_ms": 0, "backoff": "fixed", "run_ignored": "default", "extra": False, "store_s": False, "store_f": True}
+        return sc
     if k == 11:
         # fixed scenario (corpus): nothing is selected (every listed test is ignored and --run-ignored is the default): every listed
         # test must still be reported skipped, and the run ends with "no tests to run"
